@@ -595,6 +595,10 @@ class DataFrameSchemaBackend(PolarsSchemaBackend):
             subset = [
                 x for x in lst if x in get_lazyframe_column_names(check_obj)
             ]
+            if not subset:
+                # none of the listed columns is present: nothing to compare,
+                # column presence is reported by check_column_presence
+                continue
             duplicates = check_obj.select(subset).collect().is_duplicated()
             if duplicates.any():
                 failure_cases = check_obj.filter(duplicates)
